@@ -9,7 +9,9 @@ for m in /verif/mutants/${pfx}*.patch; do
     *) prop=$(echo "$b" | cut -d- -f1) ;;
   esac
   out=$(/verif/tools/mutant.sh "$m" "$prop" 2>&1)
-  if echo "$out" | grep -q '^VIOLATION'; then
+  if echo "$out" | grep -q 'LOAD-FAILURE\|PATCH-FAILED'; then
+    echo "BROKEN-MUTANT $b"; echo "$out" | grep -E 'LOAD-FAILURE|PATCH-FAILED' | head -2
+  elif echo "$out" | grep -q '^VIOLATION'; then
     what=$(echo "$out" | grep -E '^\s+\[(violated|undecided)\]' | head -2 | cut -c1-200)
     case "$b" in ok-*) echo "FALSE-ALARM $b"; echo "$what";; *) echo "CAUGHT $b"; [ -n "${VERBOSE:-}" ] && echo "$what";; esac
   else
